@@ -321,6 +321,9 @@ def selector_datasets(program):
                 subs.append(n["src"])
             elif k == "case":
                 subs.append(n["disp"])
+                from ..ref import cond_spec
+
+                subs.extend(c for c in (cond_spec(n, i) for i in range(len(n["cases"]))) if c is not None)  # conditions choose the branch
             elif k == "map":
                 subs.extend(i for _, i in n["iters"])
             for sp in subs:
